@@ -287,9 +287,9 @@ func runPipe(p pipeInput, em *lib.Emitter, id string) {
 	em.Case(lib.Case{
 		ID: id, Coq: coq, Key: fmt.Sprintf("%+v", p),
 		Nontrivial: hasIA && hasDQ && excludedSent && len(p.Steps) > 0,
-		Sig: map[string]interface{}{"step": step, "kind": "pipeline", "excluded_accepted": excludedAccepted, "group_changed": changed},
-		In:  input{Pipe: &p},
-		Out: map[string]interface{}{"group_after_marks": first, "read_only_steps": steps, "messages": msgs, "detail": detail},
+		Sig:        map[string]interface{}{"step": step, "kind": "pipeline", "excluded_accepted": excludedAccepted, "group_changed": changed},
+		In:         input{Pipe: &p},
+		Out:        map[string]interface{}{"group_after_marks": first, "read_only_steps": steps, "messages": msgs, "detail": detail},
 	})
 }
 
